@@ -33,7 +33,15 @@ HOST = 'h'
 _Member = collections.namedtuple('_Member', 'service_endpoint additional_endpoints')
 
 
-def mk_server(port, endpoint_name=None):
+# endpoints of a custom server-set provider: any hashable with host and port (the library's own KafkaEndpoint is a namedtuple too)
+HostPort = collections.namedtuple('HostPort', 'host port')
+
+
+def mk_server(port, endpoint_name=None, etype=None):
+  if etype == 'tuple':
+    if endpoint_name:
+      return _Member(HostPort('svc.' + HOST, port), {endpoint_name: HostPort(HOST, port), 'other': HostPort('other.' + HOST, port)})
+    return ScalesUriParser.Server(HostPort(HOST, port))
   if endpoint_name:
     # the balancer is configured to use a named endpoint: the member's service endpoint is a different address
     return _Member(ScalesUriParser.Endpoint('svc.' + HOST, port), {endpoint_name: ScalesUriParser.Endpoint(HOST, port),
@@ -154,6 +162,10 @@ class HSSP(ServerSetProvider):
   def endpoint_name(self):
     return self.run.cfg.get('endpoint_name')
 
+  @property
+  def etype(self):
+    return self.run.cfg.get('endpoint_type')
+
   def Initialize(self, on_join, on_leave):
     self.on_join = on_join
     self.on_leave = on_leave
@@ -164,7 +176,7 @@ class HSSP(ServerSetProvider):
     while True:
       kind, port = self.q.get()
       fn = self.on_join if kind == 'join' else self.on_leave
-      fn(mk_server(port, self.endpoint_name))
+      fn(mk_server(port, self.endpoint_name, self.etype))
 
   def GetServers(self):
     pf = self.run.cfg.get('provider_fail')
@@ -175,12 +187,12 @@ class HSSP(ServerSetProvider):
       if pf[0] == 'timeout':
         raise gevent.Timeout(1.0)       # what kazoo's gevent handler raises; not an Exception subclass
       raise IOError('server set not reachable')
-    snap = [mk_server(p, self.endpoint_name) for p in self.members]
+    snap = [mk_server(p, self.endpoint_name, self.etype) for p in self.members]
     dup = self.run.cfg.get('initial_dup')
     if dup and snap:
       # the same endpoint listed twice (tcp://a:1,b:1,a:1, or a re-registration before the old znode expired):
       # equal but distinct member objects
-      snap.insert(dup % (len(snap) + 1), mk_server(self.members[dup % len(self.members)], self.endpoint_name))
+      snap.insert(dup % (len(snap) + 1), mk_server(self.members[dup % len(self.members)], self.endpoint_name, self.etype))
       self.run.flags.add('endpoint_listed_twice')
     if self.delay:
       gevent.sleep(self.delay)
